@@ -514,18 +514,18 @@ func init() {
 					key := fi.Name + "/comma-ok:" + v.Name() + "@" + itoa(n)
 					bad := false
 					for _, u := range fi.usesOf(v) {
-						if u.Pos() < as.End() {
+						if startOf(u) < endOf(as) {
 							continue
 						}
 						// a later redefinition of v or ok ends the region
 						cut := false
 						for _, d := range fi.defs[v] {
-							if d.node.Pos() > as.Pos() && d.node.Pos() < u.Pos() {
+							if startOf(d.node) > startOf(as) && startOf(d.node) < startOf(u) {
 								cut = true
 							}
 						}
 						for _, d := range fi.defs[okv] {
-							if d.node.Pos() > as.Pos() && d.node.Pos() < u.Pos() {
+							if startOf(d.node) > startOf(as) && startOf(d.node) < startOf(u) {
 								cut = true
 							}
 						}
@@ -533,7 +533,7 @@ func init() {
 							continue
 						}
 						for _, g := range fi.Guards(u) {
-							if g.Kind == "bool" && g.Neg && fi.varOf(g.Expr) == okv && g.At.Pos() > as.Pos() {
+							if g.Kind == "bool" && g.Neg && fi.varOf(g.Expr) == okv && startOf(g.At) > startOf(as) {
 								// used where ok is known false
 								if is, isIf := g.At.(*ast.IfStmt); isIf && fi.within(u, is) {
 									bad = true
@@ -834,7 +834,7 @@ func init() {
 					key := name + "/" + what
 					if v := fi.varOf(arg); v != nil {
 						for _, d := range fi.defs[v] {
-							if d.rhs != nil && d.node.Pos() < cl.Pos() {
+							if d.rhs != nil && startOf(d.node) < startOf(cl) {
 								if sc, ok := ast.Unparen(d.rhs).(*ast.CallExpr); ok && fi.callee(sc) != nil {
 									key = name + "/add(" + fi.callee(sc).Name() + " error)"
 								}
